@@ -371,7 +371,8 @@ def main(chk: core.Check) -> int:
     if not g["ok"]:
         chk.obligation_broken("translator", "translate AsCustom.final_array (installed uproot-custom) into Gen/FinalPy.lean", g["error"])
     core.regen_rootpy(chk)          # Bes3Interpretation.final_array = post-processing of super().final_array (checked by the root_io.py translator)
-    chk.prove(modules=["C02", "C01Cgem", "FinalTie", "RootTie"])
+    _entry = ["EntryTie"] if core.regen_entry(chk) else []
+    chk.prove(modules=["C02", "C01Cgem", "FinalTie", "RootTie"] + _entry)
     try:
         diffs = model_vs_real(chk, 4000 if thorough else 500)
         chk.coverage["traces_validated_against_impl"] = chk.evals
